@@ -114,6 +114,19 @@ def render_job(job) -> Tuple[List[Dict[str, Any]], List[Dict[str, Any]]]:
                              'via': 'file' if via_file else 'stringio'}
         games = None
         try:
+            if li % 6 == 1:
+                # the shared parser object was last used on a file that was NOT
+                # read to its end (a caller that peeks at the first game, or an
+                # error in the middle of a file)
+                try:
+                    g = shared_parser.parse_stream(io.StringIO(
+                        '[Board "stale"]\n[Dealer "N"]\n\n[Board "stale2"]\n[Dealer "E"]\n'))
+                    next(g)
+                    if li % 12 == 1:
+                        shared_parser.parse_board_settings(io.StringIO(
+                            '[Board "nodeal"]\n[Dealer "N"]\n\n[Board "x"]\n'))
+                except Exception:  # noqa
+                    pass
             with source() as fp:
                 # every other file is read by a parser object that has read
                 # other files before
@@ -295,6 +308,7 @@ def c18_session(job) -> List[Dict[str, Any]]:
     r = rng('c18', sd, tid)
     sink = RecIO()
     wr = PbnWriter(sink)
+    fresh_writer_each = (not long_names) and r.random() < 0.3   # e.g. a file opened in append mode
     evs: List[Dict[str, Any]] = []
     written = []
     chunks_all: List[str] = []
@@ -321,6 +335,8 @@ def c18_session(job) -> List[Dict[str, Any]]:
                 pass
         e: Dict[str, Any] = {'tid': f'{tid}.w{k}', 'ev': 'longline' if long_names else 'write',
                              'rec': rec, 'raised': False}
+        if fresh_writer_each:
+            wr = PbnWriter(sink)
         try:
             wr.write_board_result(**kw)
         except Exception as ex:  # noqa
